@@ -134,6 +134,9 @@ def query(p, dt_ns: int, budget_s: int = 1):
         signal.setitimer(signal.ITIMER_REAL, 0)
 
 
+
+HORIZON_NS = 2208988800 * 10**9      # 2040-01-01T00:00:00Z
+
 def run_case(case: dict) -> dict:
     """case: {'expr': E, 'queries': [dt...] | 'chain': [dt0, n], 'fracs': [...]}  ->  adds 'results', 'draws'"""
     draws = Draws(case.get('fracs', [0.5]))
@@ -151,6 +154,8 @@ def run_case(case: dict) -> dict:
             dt, n = case['chain']
             for _ in range(n):
                 r = query(p, dt)
+                if r[0] == 'ok' and r[1] >= HORIZON_NS:
+                    break               # beyond the time-zone tables of the model (they end 2041-01-01)
                 results.append([dt, r])
                 if r[0] != 'ok':
                     break
